@@ -1,0 +1,35 @@
+//go:build verif
+
+package board
+
+import "github.com/paulsonkoly/chess-3/move"
+
+// Verification hooks (build tag verif). They expose private state read-only
+// and an optional observer of make/undo operations.
+
+// VerifHashes returns a copy of the hash history of b.
+func VerifHashes(b *Board) []Hash { return append([]Hash(nil), b.hashes...) }
+
+// VerifFullMoves returns the full move counter of b.
+func VerifFullMoves(b *Board) int { return b.fullMoves }
+
+// VerifScratchHash computes the Zobrist hash of b from scratch.
+func VerifScratchHash(b *Board) Hash { return b.calculateHash() }
+
+// Operation kinds reported to VerifOnOp.
+const (
+	VerifMake = iota + 1
+	VerifUndo
+	VerifNullMake
+	VerifNullUndo
+)
+
+// VerifOnOp, when set, is called after the state change of MakeMove,
+// UndoMove, MakeNullMove and UndoNullMove.
+var VerifOnOp func(kind int, b *Board, m move.Move)
+
+func (b *Board) verifOp(kind int, m move.Move) {
+	if VerifOnOp != nil {
+		VerifOnOp(kind, b, m)
+	}
+}
